@@ -120,6 +120,7 @@ def slice_normalisation(ctx, tk, rule):
         start = _step_factor(c.a[1][0], selfn)
         whats = "the first selected column of a positive-step column slice is normalised into [0, len(row)] (None, negative, too small, too large)"
         _interval_rule(ctx, rule, f, fa, start, is_N, is_subj, (0, 0), (1, 0), whats, c.node, "pos-start")
+        wrap_branch_strictness(ctx, rule, f, fa, start, is_N, is_subj, c.node, "pos-start")
         # stop: in the length expression (stop - start + k - 1) // k
         stop = None
         for x in walk(c.a[1][1]):
@@ -128,6 +129,7 @@ def slice_normalisation(ctx, tk, rule):
                 break
         whatp = "the stop column of a positive-step column slice is normalised into [0, len(row)]"
         _interval_rule(ctx, rule, f, fa, stop, is_N, is_subj, (0, 0), (1, 0), whatp, c.node, "pos-stop")
+        wrap_branch_strictness(ctx, rule, f, fa, stop, is_N, is_subj, c.node, "pos-stop")
     # negative steps
     g = ctx.func(V2 + "col_slice")
     ga = ctx.fa(g)
@@ -144,6 +146,7 @@ def slice_normalisation(ctx, tk, rule):
         found = True
         whatn = "the first selected column of a negative-step column slice is clamped to an existing cell [0, len(row)-1]"
         _interval_rule(ctx, rule, g, ga, start, is_N, is_subj, (0, 0), (1, -1), whatn, c.node, "neg-start", modes=("pos",))
+        wrap_branch_strictness(ctx, rule, g, ga, start, is_N, is_subj, c.node, "neg-start")
     if not found:
         ctx.unknown(rule, g, "negative-step start normalisation", "address construct not recognised", engine="E8")
     # _calculate_lengths: start/stop normalisation clamps
@@ -237,6 +240,12 @@ def column_units(ctx, tk, rule):
                     if c.k == "call" and c.a[0].k == "attr" and c.a[0].a[1] == "__class__":
                         args = list(c.a[1])
                         kw = dict(c.a[2])
+                        sa = args[0] if args else kw.get("starts")
+                        if sa is not None and name != "row_slice":
+                            from_ends = any(_self_attr(x, selfn, "ends") for x in walk(sa))
+                            ctx.decide(rule, m, "cell addresses of a derived view are computed from the row starts (start + column * col_step), never from the row ends",
+                                       not from_ends, "`%s`: ends = start + (length-1)*col_step + 1 is not on the column lattice unless col_step == 1, so "
+                                       "end + k*col_step addresses neighbouring cells of a strided or reversed view" % (sa,), node=c.node, key="%s:from-ends" % name, engine="E5")
                         slots = [("starts", "P"), ("lengths", "C"), ("col_step", "S")]
                         for i, (sn, want) in enumerate(slots):
                             a = args[i] if i < len(args) else kw.get(sn)
@@ -373,3 +382,40 @@ def _sel_parts(t):
                 return None if is_const(x, None) else (x.a[0] if x.k == "const" else "?")
             return ((c[0], c[1]), base.a[1], (cv(sl.a[0]), cv(sl.a[1])))
     return None
+
+
+def wrap_branch_strictness(ctx, rule, f, fa, term, is_N, is_subj, node, key):
+    """an alternative of the form  N + x  (x a caller-supplied bound) is the negative wrap: it may only be
+    taken for x <= -1.  With `x <= 0` the bound 0 is wrapped to N (e.g. a[:, :0] selects whole rows)."""
+    from .bounds import refine_from_facts, le
+    from .guards import facts_at
+    if term is None:
+        return
+    cands = []
+    for x in walk(term):
+        if x.k == "phi":
+            cands += list(x.a[0])
+    if not cands:
+        cands = alts(term)
+    for a in cands:
+        subj = None
+        for x in walk(a):
+            if x.k == "bin" and x.a[0] == "+":
+                for l, r in ((x.a[1], x.a[2]), (x.a[2], x.a[1])):
+                    if is_N(l) and is_subj(r):
+                        subj = r
+        if subj is None or a.node is None:
+            continue
+        dn = fa.node_of(a.node)
+        if dn is None:
+            continue
+        ref = refine_from_facts(facts_at(fa, dn), is_subj)
+        iv = ref.get(repr(subj))
+        what = "a slice bound is wrapped by the row length exactly when it is negative (bound 0 stays 0)"
+        if iv is None:
+            ctx.unknown(rule, f, what, "no sign test dominates the wrap %s" % (a,), node=node, key=key + ":wrap", engine="E8")
+            continue
+        ok = le(iv[1], (0, -1))
+        ctx.decide(rule, f, what, True if ok is True else (False if ok is False else None),
+                   "the wrap `%s` is taken for bounds up to %s: a bound of 0 becomes the row length" % (a, iv[1][1] if isinstance(iv[1], tuple) and len(iv[1]) == 2 else iv[1]),
+                   node=node, key=key + ":wrap", engine="E8")
